@@ -607,9 +607,14 @@ def witness(ctx):
                 check("param", dict(cls=name, D=D, N=NS[D], order=rot(2), wrap="repeat3", seed=seed, full=False))
             if len(dims) > 1 and (i + seed) % 3 == 1:
                 check("param", dict(cls=name, D=2, N=NS[2], order=rot(3), wrap="step", seed=seed, full=False))
-        elif (i + seed) % 7 == 0:
+        else:
+            # every class on every run (the derivative w.r.t. the coefficients is half of the property); full / rollout variants rotate
             k = i // 7 + seed
-            check("param", dict(cls=name, D=D, N=NS[D], order=ords[k % len(ords)], wrap="step" if k % 3 else "rollout3", seed=seed, full=k % 3 == 1))
+            o = ords[k % len(ords)]
+            if o == 0 and len(ords) > 1:
+                o = ords[1 + k % 4]           # order 0 has no ETDRK coefficients to differentiate
+            special = (i + seed) % 7 == 0
+            check("param", dict(cls=name, D=D, N=NS[D], order=o, wrap="rollout3" if (special and k % 3 == 0) else "step", seed=seed, full=special and k % 3 == 1))
     # ---- scalar coefficients given as traced 0-d values (F8: the linear classes used to reject them)
     for name, a in SCALAR_OR_ARRAY:
         for D in ((1, 2, 3) if deep else (1 + (seed + len(a)) % 3,)):
